@@ -151,6 +151,7 @@ type VC struct {
 	sliceUFs  [][2]string     // uninterpreted functions of one slice: (name, row sort)
 	localCells [][2]string    // (component, ref) of the local variables' own cells
 	localTypes map[string]types.Type // every source-level local of the function under verification (from DebugRefs)
+	matchedSites map[*CallSiteSpec]bool // `at call` clauses that applied to some call (vacuity guard)
 }
 
 func newVC(eng *Engine, fn *ssa.Function, spec *FuncSpec) *VC {
@@ -386,6 +387,23 @@ func (vc *VC) zeroOfSort(sort string, t types.Type) string {
 		return fmt.Sprintf("(mk_%s %s)", sort, strings.Join(fs, " "))
 	}
 	return "zero_" + sort
+}
+
+// zeroRow: an array row whose every element is the zero value of the element sort. For interpreted element sorts this is an
+// SMT constant array; for uninterpreted sorts (strings, type parameters, fixed-size arrays) the zero is a declared constant,
+// which cvc5 does not accept as the value of `as const`: a declared row with a defining axiom is used instead.
+func (vc *VC) zeroRow(es string, t types.Type) string {
+	zero := vc.zeroOfSort(es, t)
+	if !strings.Contains(zero, "|s:") && !strings.Contains(zero, "zero_") {
+		return fmt.Sprintf("((as const (Array Int %s)) %s)", es, zero)
+	}
+	name := "zrow_" + sanitize(es)
+	if !vc.declared[name] {
+		vc.declared[name] = true
+		vc.emit(fmt.Sprintf("(declare-const %s (Array Int %s))", name, es))
+		vc.emit(fmt.Sprintf("(assert (forall ((i Int)) (! (= (select %s i) %s) :pattern ((select %s i)))))", name, zero, name))
+	}
+	return name
 }
 
 func (vc *VC) zeroVal(t types.Type) Val {
@@ -680,6 +698,12 @@ func (vc *VC) query(o *Obligation) string {
 	var all []string
 	for _, h := range names {
 		sb.WriteString(fmt.Sprintf("(declare-const |s:%s| Str)\n(assert (= (u.len |s:%s|) %d))\n", h, h, len(h)/2))
+		if len(h)/2 <= 8 && strings.Contains(text, "(u.code ") { // short literals know their characters (only where characters are looked at)
+			for k := 0; k+1 < len(h); k += 2 {
+				b, _ := strconv.ParseUint(h[k:k+2], 16, 8)
+				sb.WriteString(fmt.Sprintf("(assert (= (u.code (u.at |s:%s| %d)) %d))\n", h, k/2, b))
+			}
+		}
 		all = append(all, "|s:"+h+"|")
 	}
 	if len(all) > 1 {
@@ -1093,7 +1117,7 @@ func (vc *VC) allocObj(st *State, t types.Type, label string) Val {
 	if at, ok := t.Underlying().(*types.Array); ok {
 		c := vc.elemComp(at.Elem())
 		es := vc.sortOf(at.Elem())
-		vc.set(st, c, fmt.Sprintf("(store %s %s ((as const (Array Int %s)) %s))", vc.get(st, c), r, es, vc.zeroOfSort(es, at.Elem())))
+		vc.set(st, c, fmt.Sprintf("(store %s %s %s)", vc.get(st, c), r, vc.zeroRow(es, at.Elem())))
 		return Val{T: r, Typ: pt}
 	}
 	c := vc.cellComp(t)
@@ -1148,7 +1172,9 @@ const strPrelude = `(declare-sort Str 0)
 // axioms of the string model, added to a query only when it mentions the operation (quantified axioms make
 // the solvers answer unknown instead of sat on the vacuity cover queries)
 var strAxioms = [][2]string{
-	{"(u.cat ", "(assert (forall ((a Str) (b Str)) (! (= (u.len (u.cat a b)) (+ (u.len a) (u.len b))) :pattern ((u.cat a b)))))\n"},
+	{"(u.cat ", "(assert (forall ((a Str) (b Str)) (! (= (u.len (u.cat a b)) (+ (u.len a) (u.len b))) :pattern ((u.cat a b)))))\n" +
+		"(assert (forall ((a Str) (b Str) (i Int)) (! (=> (and (<= 0 i) (< i (+ (u.len a) (u.len b)))) (= (u.at (u.cat a b) i) (ite (< i (u.len a)) (u.at a i) (u.at b (- i (u.len a)))))) :pattern ((u.at (u.cat a b) i)))))\n" +
+		"(assert (forall ((a Str)) (! (>= (u.len a) 0) :pattern ((u.len a)))))\n"},
 	{"(u.le ", "(assert (forall ((a Str) (b Str)) (! (= (u.le a b) (or (u.lt a b) (= a b))) :pattern ((u.le a b)))))\n"},
 	{"(u.lt ", "(assert (forall ((a Str) (b Str)) (! (not (and (u.lt a b) (u.lt b a))) :pattern ((u.lt a b)))))\n"},
 }
